@@ -14,8 +14,10 @@ use crate::alpha::value_type::MAXIMUM_ALIGNMENT;
 
 use enumset::EnumSet;
 
-const MAX_NUM_AUTODEREF_STEPS: usize =
-	MAX_REFERENCE_DEPTH + MAX_ADDRESS_DEPTH as usize;
+// Each step of a reference may be preceded by a number of autoderef steps.
+const MAX_NUM_AUTODEREF_STEPS: usize = MAX_REFERENCE_DEPTH
+	* (MAX_ADDRESS_DEPTH as usize + 1)
+	+ MAX_ADDRESS_DEPTH as usize;
 
 /// The Typer manages a symbol table and keeps track of context
 /// during the type inference stage.
